@@ -390,6 +390,16 @@ def _directed(ctx):
         (Union[list[L["1"]], list[L[1]]], Union[List[L[1]], List[L["1"]]]), (Union[Dict[str, L[True]], Dict[str, L["True"]]], Union[dict[str, L["True"]], dict[str, L[True]]]),
         (Union[typing.Callable[[List[int]], int], typing.Callable[[list[int]], str]], Union[typing.Callable[[list[int]], int], typing.Callable[[List[int]], str]]),
     ]
+    # members whose sort TEXT is the same: classes made by a factory, enums / NewTypes / type variables named alike (defect #61)
+    import enum as _enum  # noqa: PLC0415
+    from dataclasses import make_dataclass  # noqa: PLC0415
+
+    A1, A2 = make_dataclass("Same", [("x", int)]), make_dataclass("Same", [("y", int)])
+    E1, E2 = _enum.Enum("Color", "RED"), _enum.Enum("Color", "RED")
+    N1, N2 = typing.NewType("UserId", int), typing.NewType("UserId", int)
+    pairs_equal += [(List[Union[A1, A2]], list[Union[A2, A1]]), (Dict[str, Union[List[A1], List[A2]]], dict[str, Union[list[A2], list[A1]]]),
+                    (List[L[E1.RED, E2.RED]], list[L[E2.RED, E1.RED]]), (List[Union[N1, N2]], list[Union[N2, N1]]),
+                    (Union[A1, A2, None], Optional[Union[A2, A1]])]
     for a, b in pairs_equal:
         check_equivalent(ctx, ("leaf", a), a, b, 0, predicates=bool(typing.get_args(a)) or a is None)
     pairs_diff = [(L[0], L[False]), (Union[L[0], L[False]], L[0]), (L[0, False], L[0]), (L[1, True], L[True]), (Union[int, str], Union[int, bytes]), (List[int], List[bool])]
